@@ -8,7 +8,7 @@ META = {
     "level": "model_checking",
     "text": "TLC exhaustively checks a specification of the broadcast channel shaped like channel.go / broadcast_channel.go (Send with "
             "atomic sequence numbers, deliver as snapshot plus one non-blocking send per handler, Recv / cancel / removeHandler for "
-            "both lifecycle variants, and the processing goroutine as Dequeue, CheckCtx, FilterDup, Invoke, Return) for at-most-once "
+            "both lifecycle variants, a receiver's context ending by cancel(), by deadline or through its parent, and the processing goroutine as Dequeue, CheckCtx, FilterDup, Invoke, Return) for at-most-once "
             "delivery per (sender, seqno), no hand-over of a message dequeued after the cancellation, fresh sequence numbers, bounded "
             "queues and no loss towards live handlers; variants without the second context check / without the filter violate it. "
             "TLC-generated behaviours are forced step by step on the real libp2p and local channels by holding each processing "
@@ -32,7 +32,7 @@ META = {
     "design_ref": "DESIGN.md §4.4 C16",
 }
 SPEC = "specs/Broadcast"
-ALL_ACTIONS = ["Send", "FailPublish", "StartDeliverC", "TrySend", "Register", "Cancel", "ExitOnDone", "Dequeue", "CheckCtx", "FilterDup",
+ALL_ACTIONS = ["Send", "FailPublish", "StartDeliverC", "TrySend", "Register", "End", "ExitOnDone", "Dequeue", "CheckCtx", "FilterDup",
                "Invoke", "Return"]
 
 
@@ -47,6 +47,8 @@ CONSTANTS
   Lifecycle = "%s"
   SecondCheck = TRUE
   Filter = TRUE
+  EndKinds = {"cancel", "deadline", "parent"}
+  Honoured = {"cancel", "deadline", "parent"}
   MaxFail = 0
   GiveBack = FALSE
 CONSTRAINT Hwm
@@ -77,7 +79,8 @@ def run(ctx):
                 acts.append("RemoveHandler")
             ctx.require_coverage(r, acts, cfg)
         # without the second context check / the filter the invariants fail; the strict reading fails on the code as written
-        negs = ctx.pick(["MC_NoSecondCheck", "MC_GiveBack"], ["MC_NoSecondCheck", "MC_GiveBack", "MC_NoFilter", "MC_Window"])
+        negs = ctx.pick(["MC_NoSecondCheck", "MC_GiveBack", "MC_DeadlineIgnored"],
+                        ["MC_NoSecondCheck", "MC_GiveBack", "MC_DeadlineIgnored", "MC_NoFilter", "MC_Window"])
         for cfg in negs:
             r = ctx.tlc(SPEC, "Broadcast", cfg=cfg, label=cfg, expect=("violation",), dump_trace=False)
             out[cfg] = r.violated
@@ -119,7 +122,7 @@ def run(ctx):
             ctx.broken("behaviour generation for %s produced only %d behaviours" % (name, len(beh)))
         go = ctx.gotest(pkg, "^TestVerif_C16_(Replay|Trace)$", ["c16_test.go"],
                         inputs={"behaviours_%s.ndjson" % name: beh}, label="channel_" + name,
-                        env={"VERIF_RUNS": ctx.pick(25, 200), "VERIF_FORCE_REPS": ctx.pick(40, 100),
+                        env={"VERIF_RUNS": ctx.pick(25, 200), "VERIF_FORCE_REPS": ctx.pick(40, 60),
                              "VERIF_SEQNO_ROUNDS": ctx.pick(3, 12)},
                         timeout=ctx.pick(900, 3000))
         res = {"go": go, "beh": len(beh), "traces": []}
